@@ -123,6 +123,54 @@ def build(run):
                 continue
             cm_ob(t, typing)
 
+    # powers with LITERAL exponents of every kind (int, float, complex; as nodes and as Python numbers): a real base raised to e is real for every value of the base
+    # exactly when e is a real integer -- any other exponent typed 'real' lets an ordering comparison of complex values through
+    def literal_powers():
+        import cmath
+        import ufv.elements as E
+        from ufl.algorithms import compute_form_data
+        S_ = ufl.FunctionSpace(tri, E.LagrangeElement(tri.ufl_cell(), 1))
+        f, v = ufl.Coefficient(S_), ufl.TestFunction(S_)
+        exps = [2, -1, 0, 3, 2.0, -2.0, 0.5, 2.5, -0.5, 1j, 2 + 1j, 3 - 2j, -1 + 0.5j, 0.5 + 0.5j, 2.5 + 1j, C.IntValue(4), C.FloatValue(1.5), C.ComplexValue(2 + 1j), C.ComplexValue(1j)]
+        n = 0
+        for e_ in exps:
+            ev = complex(e_._value) if isinstance(e_, C.ScalarValue) else complex(e_)
+            # ground truth by definition: b**e for real b of either sign
+            always_real = all(abs((complex(b_) ** ev).imag) < 1e-12 for b_ in (0.5, 2.0, 3.0, -0.5, -2.0, -3.0))
+            want_real_ok = ev.imag == 0 and ev.real == int(ev.real)
+            assert always_real == want_real_ok or (ev == 0), (e_, always_real, want_real_ok)
+            base = Opq("a", (), (), (), dom=tri, real=True)
+            o = C.Power(base, ufl.as_ufl(e_))
+            rules = CheckComparisons()
+            rules.nodetype[base] = "real"
+            try:
+                r = map_expr_dag(rules, o, compress=False, vcache={base: base})
+                ty = rules.nodetype.get(r)
+            except ComplexComparisonError:
+                ty = "rejected"
+            n += 1
+            if ty == "real" and not want_real_ok:
+                return violated(f"CheckComparisons types (real base)**({e_!r}) as real; with base 3 the value is {3.0 ** ev}", replay={"exponent": repr(e_), "value_at_3": str(3.0 ** ev)},
+                                reproduced=True, backend="exec")
+            # through the pipeline: an ordering comparison / min / max of such a power
+            for cname, mk in (("lt", lambda p_: ufl.conditional(ufl.lt(p_, 1), 1.0, 2.0)), ("max_value", lambda p_: ufl.max_value(p_, 1)), ("min_value", lambda p_: ufl.min_value(1, p_))):
+                form = mk(abs(f) ** e_) * ufl.conj(v) * ufl.Measure("dx", domain=tri)
+                n += 1
+                try:
+                    compute_form_data(form, complex_mode=True)
+                    accepted = True
+                except ComplexComparisonError:
+                    accepted = False
+                except BaseException as ex:  # noqa: BLE001
+                    if isinstance(ex, (KeyboardInterrupt, SystemExit)):
+                        raise
+                    accepted = False
+                if accepted and not want_real_ok:
+                    return violated(f"complex mode accepts {cname} of |f|**({e_!r}) although that power is complex valued (at |f| = 3: {3.0 ** ev})",
+                                    replay={"exponent": repr(e_), "comparison": cname}, reproduced=True, backend="exec")
+        return proved("exec(finite)", vcs=n, sample=f"{len(exps)} literal exponents: typed real only for real integers; comparisons of complex-valued powers rejected")
+    run.add("complex-mode/powers-with-literal-exponents", literal_powers, kind="values")
+
     # terminals: which are typed real
     def terminals():
         import ufv.elements as E
